@@ -205,7 +205,7 @@ func c13Packed(c *Ctx) {
 		})
 	}
 	c.Exhaustive("packed: all 256 single bytes and all 65536 byte pairs")
-	n := c.N(500, 20000)
+	n := c.N(1000, 100000)
 	for i := 0; i < n; i++ {
 		c.Case(int64(257+i), func(k *K) {
 			r := k.Rand()
@@ -227,7 +227,7 @@ func c13Packed(c *Ctx) {
 }
 
 func c13Random(c *Ctx) {
-	n := c.N(1000, 30000)
+	n := c.N(2000, 150000)
 	for i := 0; i < n; i++ {
 		c.Case(int64(i), func(k *K) {
 			r := k.Rand()
@@ -362,7 +362,7 @@ func c14Codons(c *Ctx) {
 		k.DistinctBC(512)
 	})
 	c.Exhaustive("codons: all 64 codons x 8 case patterns")
-	n := c.N(1000, 30000)
+	n := c.N(2000, 200000)
 	for i := 0; i < n; i++ {
 		c.Case(int64(1+i), func(k *K) {
 			r := k.Rand()
@@ -449,7 +449,7 @@ func c14Frames(c *Ctx) {
 	}
 	c.Exhaustive("frames: all sequences over aAcCgGtT of length 0..5")
 	// every length 0..64 with random contents
-	reps := c.N(20, 500)
+	reps := c.N(30, 3000)
 	for n := 0; n <= 64; n++ {
 		for j := 0; j < reps; j++ {
 			c.Case(idx, func(k *K) {
@@ -464,7 +464,7 @@ func c14Frames(c *Ctx) {
 		}
 	}
 	c.Exhaustive("frames: every length 0..64")
-	m := c.N(300, 6000)
+	m := c.N(600, 40000)
 	for j := 0; j < m; j++ {
 		c.Case(idx, func(k *K) {
 			r := k.Rand()
